@@ -60,6 +60,37 @@ def jumped_over(arr, t0, tr, sym, o, c0, c1):
     return False
 
 
+def raw_sort_explains(arr, t0, tr, sym, o, c0, c1):
+    """the out-of-order fill that jumped over order `o` happened in an INNER minute of the unit whose raw open differs
+    from the previous close, and along that minute's RAW candle (from its raw open) the filled order does come first
+    (or `o` is not inside the raw candle at all): the order the fast simulator's sort — which follows the raw minutes
+    of the chunk — gives, while the matching follows the jump-fixed minute"""
+    for j in range(max(c0 + 1, 1), c1):
+        rop, c, rh, rl = (float(arr[j][x]) for x in (1, 2, 3, 4))
+        pc = float(arr[j - 1][2])
+        if pc == rop:
+            continue
+        op, h, l = pc, max(rh, pc), min(rl, pc)
+        fixed = path_points(op, h, l, c)
+        raw = path_points(rop, rh, rl, c)
+
+        def dist(path, ps):
+            seg, cur = ps
+            return sum(abs(path[i + 1] - path[i]) for i in range(seg)) + abs(cur - path[seg])
+        reach_f = advance(fixed, (0, fixed[0]), float(o['price']))
+        if reach_f is None:
+            continue
+        reach_r = advance(raw, (0, raw[0]), float(o['price']))
+        for e in tr.events:
+            if e[0] == 'FILL' and e[3] == sym and (int(e[2]) - M - t0) // M == j and e[5] != 'MARKET':
+                at_f = advance(fixed, (0, fixed[0]), float(e[7]))
+                at_r = advance(raw, (0, raw[0]), float(e[7]))
+                if at_f is not None and dist(fixed, reach_f) < dist(fixed, at_f) - 1e-12 and at_r is not None \
+                        and (reach_r is None or dist(raw, at_r) <= dist(raw, reach_r) + 1e-12):
+                    return True
+    return False
+
+
 # ------------------------------------------------------------------------------------------ C02
 def c02_violations(sess, cands, tr, step, aborted=False):
     """fills happen exactly when and where the price reaches the order (step = minutes per matching unit:
@@ -158,7 +189,8 @@ def c02_violations(sess, cands, tr, step, aborted=False):
                 if lo <= o['price'] <= hi:
                     gap_only = all(not (float(arr[x][4]) <= o['price'] <= float(arr[x][3])) for x in range(c0, c1))
                     out.append(('missed-fill', k, dict(o, unit=[c0, c1], range=[lo, hi], in_gap_only=gap_only,
-                                                      jumped_over_by_out_of_order_fill=jumped_over(arr, t0, tr, sym, o, c0, c1))))
+                                                      jumped_over_by_out_of_order_fill=jumped_over(arr, t0, tr, sym, o, c0, c1),
+                                                      sorted_along_raw_inner_minute=(step != 1 and raw_sort_explains(arr, t0, tr, sym, o, c0, c1)))))
                     break
     return out
 
